@@ -461,4 +461,50 @@ def check (src out : PGraph) : Verdict :=
     cover := c,
     ethosu := (out.ops.filter isEthosU).length }
 
+/-! ## second generation: the source is itself a file written by Vela
+
+When an already compiled model is compiled again, its Ethos-U operators are CPU-resident custom operators of the
+*source* as far as the second compilation is concerned: they must be passed through verbatim. `check` does not look at
+them (an Ethos-U operator of the output is where source operators were *absorbed*), so this clause is separate:
+every Ethos-U operator of `src` has exactly one Ethos-U operator in `out` with the same result names, and the two are
+equal as operators (`opProblems`: builtin code, custom code, version, options, custom option bytes, every operand
+by name / shape / type / quantisation / **constant data** — command stream and read-only data are operands 0 and 1,
+the scratch tensors 2 and 3 — and the results). Ethos-U operators of `out` without a counterpart in `src` are not a
+problem of this clause (a later compilation with other options may place more operators on the NPU); they are counted. -/
+
+def ethosuCandidates (src out : PGraph) (sop : POp) : List (POp × Nat) :=
+  out.ops.zipIdx.filter fun p => isEthosU p.1 && outKey out p.1 == outKey src sop
+
+def ethosuVerbatimProblems (src out : PGraph) : List Problem :=
+  src.ops.zipIdx.flatMap fun (sop, j) =>
+    if !isEthosU sop then [] else
+    match ethosuCandidates src out sop with
+    | [(oop, k)] => opProblems src out k sop oop
+    | [] => [⟨"ethosu-lost", s!"Ethos-U operator {j} of the compiled input (results {outKey src sop}) has no Ethos-U operator with these results in the output"⟩]
+    | _ => [⟨"ethosu-duplicated", s!"Ethos-U operator {j} of the compiled input (results {outKey src sop}) appears more than once in the output"⟩]
+
+/-- operand / result index pairs (compiled input, output) of a passed-through operator; absent operands are skipped -/
+def operandPairs (sop oop : POp) : List (Nat × Nat) :=
+  ((sop.inputs.zip oop.inputs).filterMap fun
+    | (some a, some b) => some (a, b)
+    | _ => none) ++ sop.outputs.zip oop.outputs
+
+/-- The command stream of a compiled operator has the arena addresses of its operands baked in, so "verbatim" includes where
+    the operands live: `splan` = arena offset per tensor index of the compiled input (its OfflineMemoryAllocation entry, -1 =
+    not planned), `oplans` = the same for *every* such entry of the output. Each of them must give every operand and result of
+    a passed-through Ethos-U operator the offset it had. -/
+def ethosuPlacementProblems (src out : PGraph) (splan : List Int) (oplans : List (List Int)) : List Problem :=
+  src.ops.zipIdx.flatMap fun (sop, j) =>
+    if !isEthosU sop then [] else
+    match ethosuCandidates src out sop with
+    | [(oop, _)] =>
+      oplans.zipIdx.flatMap fun (pl, pi) => (operandPairs sop oop).filterMap fun (a, b) =>
+        if splan[a]? == pl[b]? then none
+        else some ⟨"ethosu-operand-moved", s!"Ethos-U operator {j}: tensor {(nameAt src a).getD "?"} was at arena offset {splan[a]?} when the operator was compiled, plan {pi} of the output puts it at {pl[b]?}"⟩
+    | _ => []
+
+/-- Ethos-U operators of the output that the compiled input did not have -/
+def ethosuNew (src out : PGraph) : Nat :=
+  (out.ops.filter fun oop => isEthosU oop && !(src.ops.any fun sop => isEthosU sop && outKey src sop == outKey out oop)).length
+
 end VelaVerif.Preserve
